@@ -5,6 +5,7 @@
 //!   c12_ffi --verify <archive> --scenario <name>       exit 0 iff the archive is the complete new (empty) archive: opens, lists, holds no user file
 //!   c12_ffi --describe --scenario <name>
 //! scenario := ffi-create-<always|truncate|new>   (creation disposition CREATE_ALWAYS / TRUNCATE_EXISTING / CREATE_NEW)
+//!           | ffi-create2-v<1..4>[-attrs|-nolist]  (SFileCreateArchive2 over an existing destination: format version, (attributes) flags, listfile flags)
 
 use serde_json::json;
 use std::collections::BTreeMap;
@@ -33,8 +34,23 @@ fn one_line(s: &str) -> String {
     s.replace(['\n', '\r'], " ").chars().take(300).collect()
 }
 
+/// ffi-create2-v<n>[-attrs|-nolist] -> (format version, attr_flags, file_flags_1)
+fn create2(name: &str) -> Option<(u32, u32, u32)> {
+    let p: Vec<&str> = name.strip_prefix("ffi-create2-")?.split('-').collect();
+    let v = p.first()?.strip_prefix('v')?.parse::<u32>().ok().filter(|v| (1..=4).contains(v))?;
+    match &p[1..] {
+        [] => Some((v, 0, 0xFFFF_FFFF)),
+        ["attrs"] => Some((v, 0x5, 0xFFFF_FFFF)), // CRC32 | MD5
+        ["nolist"] => Some((v, 0, 0)),
+        _ => None,
+    }
+}
+
 fn disposition(name: &str) -> Option<(u32, bool)> {
     // (creation disposition, scenario has a previous destination)
+    if create2(name).is_some() {
+        return Some((0, true));
+    }
     match name {
         "ffi-create-always" => Some((2, true)),
         "ffi-create-truncate" => Some((5, true)),
@@ -69,11 +85,11 @@ fn main() {
     vh_common::install_panic_trap();
     let name = opt.get("scenario").cloned().unwrap_or_default();
     let Some((disp, present)) = disposition(&name) else {
-        eprintln!("usage: c12_ffi --scenario <ffi-create-always|ffi-create-truncate|ffi-create-new> (--dest <path> [--make-old] | --verify <archive> | --describe)");
+        eprintln!("usage: c12_ffi --scenario <ffi-create-always|ffi-create-truncate|ffi-create-new|ffi-create2-v<1..4>[-attrs|-nolist]> (--dest <path> [--make-old] | --verify <archive> | --describe)");
         std::process::exit(EXIT_USAGE);
     };
     if opt.contains_key("describe") {
-        println!("{}", json!({"scenario": name, "op": "SFileCreateArchive + SFileCloseArchive", "creation_disposition": disp, "dest_present": present,
+        println!("{}", json!({"scenario": name, "op": if create2(&name).is_some() { "SFileCreateArchive2 + SFileCloseArchive" } else { "SFileCreateArchive + SFileCloseArchive" }, "create2_version_attrflags_listflags": format!("{:?}", create2(&name)), "creation_disposition": disp, "dest_present": present,
                                "expect": "an archive that opens and lists and holds no user file", "old_files": OLD_FILES.iter().map(|f| f.0).collect::<Vec<_>>()}));
         std::process::exit(EXIT_OK);
     }
@@ -121,10 +137,23 @@ fn main() {
     }
     // ---- the operation under test
     let p = CString::new(dest.to_string_lossy().as_bytes()).unwrap();
+    let c2 = create2(&name);
     marker("begin");
     let r = trap(|| unsafe {
         let mut h: HANDLE = ptr::null_mut();
-        let ok = SFileCreateArchive(p.as_ptr(), disp, 16, &mut h);
+        let ok = match c2 {
+            Some((v, attr_flags, list_flags)) => {
+                let mut info: SFILE_CREATE_MPQ = std::mem::zeroed();
+                info.cb_size = std::mem::size_of::<SFILE_CREATE_MPQ>() as u32;
+                info.mpq_version = v;
+                info.file_flags_1 = list_flags;
+                info.attr_flags = attr_flags;
+                info.sector_size = 3;
+                info.max_file_count = 16;
+                SFileCreateArchive2(p.as_ptr(), &info, &mut h)
+            }
+            None => SFileCreateArchive(p.as_ptr(), disp, 16, &mut h),
+        };
         let err = SFileGetLastError();
         if ok {
             SFileCloseArchive(h);
